@@ -163,4 +163,18 @@ PROPS = {
                     "reftree_decompress is validated by correspondence"],
         "assumptions": [],
     },
+    "C08": {
+        "lean_modules": ["StimModel.Props.C08"],
+        "builds": ["asan"],
+        "areas": [
+            {"area": "dem", "n": {"quick": 1500, "thorough": 30000}, "builds": ["asan"], "replayable": True},
+        ],
+        "rule": "models built through the API (nested repeat blocks incl. repeat 0, shifts of varying arity, separators, tags with escapes, 60-bit ids, probabilities from random mantissas, "
+                "denormals, 0.1-like decimals, 1-ulp-below-1): print -> parse -> equal and print idempotent (exact, in C++), flattened / iter_flatten / counts / total shift / final coordinate shift / "
+                "detector coordinates against the Lean one-instruction-at-a-time executor in exact rationals, under ASan+UBSan; distinct = distinct model texts",
+        "trusted_base": ["libc strtod / 19-digit formatting for the text round trip (compared C++ against C++)"],
+        "partial": ["the byte-level Lean parser/printer model of the DEM grammar (dem_parse_total, dem_print_parse_roundtrip, dem_validate_rejects_*) is not yet built: the text round trip is checked "
+                    "inside C++ only and hostile byte strings are not yet fed to the parser"],
+        "assumptions": ["coordinates are dyadic so that shifted coordinates are exact in binary64"],
+    },
 }
